@@ -16,6 +16,7 @@ from .common import SPECS, scratch, MachineryError
 
 TLAPS = {
     "C02": [("MemoryMapAbs_Proof", ["MemoryMapAbs_Proof.tla", "MemoryMapAbs.tla", "MemoryMapAbsOps.tla"])],
+    "C18": [("NamesAbs_Proof", ["NamesAbs_Proof.tla", "NamesAbs.tla", "NamesAbsOps.tla"])],
     "C09": [("WbArbiterAbs_Proof", ["WbArbiterAbs_Proof.tla", "WbArbiterAbs.tla", "WbArbiterAbsOps.tla"])],
 }
 # (module, files, [(label, args, expect_ok)])
@@ -105,6 +106,8 @@ def run_for(prop, run=None, with_apalache=True, strict=False):
 CONTROLS = [
     ("C02", "MemoryMapAbs_Proof", "MemoryMapAbsOps.tla", "/\\ \\A it \\in its : Apart(it, NewRange(s, n))", "/\\ TRUE",
      "CanAdd without the overlap test"),
+    ("C18", "NamesAbs_Proof", "NamesAbsOps.tla", "        /\\ ~f1[m]\n        /\\ FreeIn(C, v1[m], n)", "        /\\ FreeIn(C, v1[m], n)",
+     "a frozen (hence possibly absorbed) map may still take a new name"),
     ("C09", "WbArbiterAbs_Proof", "WbArbiterAbsOps.tla", "/\\ \\A j \\in 1..(k - 1) : RAhead(n, g, j) \\notin R", "/\\ TRUE",
      "RClosest without minimality (any requester may be granted)"),
 ]
